@@ -6,6 +6,9 @@ CONSTANTS Keys <- Keys4
  MaxOld = 0
  ReopenModes = {"same"}
  Ticking = FALSE
+ NH = 1
+ Vias = {"delete", "empty"}
+ Flushes = {FALSE, TRUE}
  Merge = FALSE
 INVARIANTS InsertKeepsCanonical DeleteKeepsCanonical
 CHECK_DEADLOCK FALSE
